@@ -128,7 +128,6 @@ def gen(rng, tier):
         cases.append(("asend_sched", "s%d" % k, ["mt %d %d %d %d %d" % (th, per, rng.choice([0, 1, 5, 40]),
                                                                       rng.choice([0, 0, 2, 5, 9]), rng.randrange(1, 10**9))]))
     if tier == "thorough":
-        import itertools
         for i, pref in enumerate(itertools.product(range(3), repeat=9)):
             cases.append(("asend_sched", "sx%d" % i, ["mt 2 1 5 2 7 " + " ".join(str(c) for c in pref)]))
     return cases
